@@ -391,6 +391,13 @@ func c05GenAtom(r *rand.Rand, loose bool) *c05Pred {
 	}
 	p := &c05Pred{Pinned: true}
 	switch k := r.Intn(100); {
+	case k < 6:
+		// a 64-bit integer column whose magnitude is at or beyond 2^53 (identifiers, nanosecond stamps),
+		// compared with an ordinary small literal: never used in arithmetic, the decision is unambiguous
+		p.Op, p.ColType = "cmp", "num"
+		p.Ref = c05P("big")
+		p.Cmp = pick(r, []string{"=", "!=", "<", "<=", ">", ">=", "<>"})
+		p.Lit = c05NumLit(pick(r, c05NumLits))
 	case k < 55:
 		p.Op, p.ColType = "cmp", "num"
 		p.Ref = pick(r, c05NumRefs)
@@ -609,7 +616,23 @@ func c05GenStmt(r *rand.Rand, loose bool) *c05Stmt {
 	if loose && (len(st.Loose) == 0 || r.Intn(2) == 0) {
 		looseAtoms = 1 + r.Intn(2)
 	}
-	if looseAtoms > 0 || r.Intn(10) < 8 {
+	if looseAtoms == 0 && r.Intn(12) == 0 {
+		// the comparison-shortcut shape: an unparenthesised AND chain of plain `column OP literal` atoms, one
+		// of them over the 64-bit column (true for its large positive values), the others easy to satisfy
+		kids := []*c05Pred{{Op: "cmp", ColType: "num", Pinned: true, Ref: c05P("big"), Cmp: pick(r, []string{">", ">=", "!=", "<>"}), Lit: c05NumLit(pick(r, c05NumLits))}}
+		for n := 1 + r.Intn(2); n > 0; n-- {
+			k := &c05Pred{Op: "cmp", ColType: "num", Pinned: true, Ref: pick(r, []*c05Ref{c05P("a"), c05P("b"), c05P("f")}), Cmp: pick(r, []string{">", ">=", "!=", "<", "<="}), Lit: c05NumLit(pick(r, []float64{-1, 0, 2, 5, 10}))}
+			if r.Intn(3) == 0 {
+				k = &c05Pred{Op: "cmp", ColType: "str", Pinned: true, Ref: c05P("s"), Cmp: pick(r, []string{"!=", ">=", "<="}), Lit: c05StrLit(pick(r, []string{"a", "c", "zz"}), "plain")}
+			}
+			kids = append(kids, k)
+		}
+		r.Shuffle(len(kids), func(i, j int) { kids[i], kids[j] = kids[j], kids[i] })
+		for _, k := range kids {
+			k.RefKind = k.Ref.Kind()
+		}
+		st.Where = &c05Pred{Op: "AND", Kids: kids}
+	} else if looseAtoms > 0 || r.Intn(10) < 8 {
 		depth := pick(r, []int{0, 0, 0, 1, 1, 1, 2, 2, 3})
 		before := looseAtoms
 		st.Where = c05GenPred(r, depth, &looseAtoms)
@@ -705,6 +728,9 @@ func c05GenRow(r *rand.Rand, id int, profile string) Row {
 	c05Put(r, row, "f", func() any { return c05GenNum(r, 2) })
 	c05Put(r, row, "s", func() any { return pick(r, c05StrVals) })
 	c05Put(r, row, "t", func() any { return r.Intn(2) == 0 })
+	c05Put(r, row, "big", func() any {
+		return pick(r, []any{int64(1) << 53, -(int64(1) << 53), int64(1) << 60, int64(9007199254740993), int(1700000000123456789), int64(-1234567890123456789), uint64(1) << 62})
+	})
 	c05Put(r, row, "m", func() any {
 		return pick(r, []any{5, 3.5, "5", "abc", "x", true, false, int64(2), "", 0})
 	})
